@@ -39,6 +39,39 @@ type c18Case struct {
 	Sched    *maporder.Schedule `json:"sched"`
 	Options  world.Options      `json:"options,omitempty"`
 	Rendered map[string]string  `json:"rendered,omitempty"`
+	// OnDisk lists good texts that are never parsed directly: they exist only
+	// as lib1/<name> on the simulated disk, next to copies of every bad text
+	// (lib1/, lib2/) and of every other good text (lib2/).  Histories of such
+	// cases also load by Read(path).
+	OnDisk []string `json:"on_disk,omitempty"`
+}
+
+// disk returns the simulated disk content of the case (nil without OnDisk).
+func (c *c18Case) disk(texts map[string]string) map[string]string {
+	if len(c.OnDisk) == 0 {
+		return nil
+	}
+	only := map[string]bool{}
+	for _, n := range c.OnDisk {
+		only[n] = true
+	}
+	bad := map[string]bool{}
+	for _, b := range c.Bad {
+		bad[b.Name] = true
+	}
+	d := map[string]string{}
+	for n, t := range texts {
+		switch {
+		case only[n]:
+			d["lib1/"+n] = t
+		case bad[n]:
+			d["lib1/"+n] = t
+			d["lib2/"+n] = t
+		default:
+			d["lib2/"+n] = t
+		}
+	}
+	return d
 }
 
 var c18Raws = []string{
@@ -136,11 +169,11 @@ func (c18Driver) Info() core.Info {
 		Assumptions: []string{
 			"one module per text (the documented caveat about several modules in one text is outside the claim)",
 			"'accepted' means Parse returned nil: a damaged text that is still valid YANG counts as a good text",
-			"loads are Parse calls: the search path and the disk are not involved, so Process-triggered file lookups fail identically in the history and in the batch run",
+			"three quarters of the cases load by Parse only, on an empty simulated disk (Process-triggered file lookups fail identically in the history and in the batch run); in the others some good texts exist only under lib1/ of the simulated disk, copies of the bad texts under lib1/ and lib2/, and histories also load by Read(path): the batch run repeats the successful Reads (whose documented effect on the search path is intended) and none of the failed ones",
 			"the batch run uses the same map-order schedule as the history (order dependence is C05's business)",
 		},
 		Real:       []string{"lexer", "parser", "AST builder incl. typedef registration", "Modules.add", "Process (include/import binding, identity and typedef resolution, ToEntry, augment, deviation)", "read API"},
-		Stub:       []string{"sequence of API calls (seeded history)", "storage damage applied to texts (seeded)", "Go map iteration order (seeded)", "disk (empty simulated disk)"},
+		Stub:       []string{"sequence of API calls (seeded history)", "storage damage applied to texts (seeded)", "Go map iteration order (seeded)", "disk (simulated: empty, or lib1/ and lib2/ holding the texts)"},
 		FaultKinds: []string{"text-short", "text-torn", "text-flip", "text-garbage", "text-dupblock", "rejected-statement", "toplevel-non-module"},
 	}
 }
@@ -181,11 +214,28 @@ func (c18Driver) Generate(t *tape.Tape, tier string) core.Case {
 		c.Bad = append(c.Bad, b)
 	}
 	ht := t.Sub("history")
+	var modNames []string // names GetModule is asked for: modules, not submodules
+	for _, m := range g.S.Mods {
+		if !m.IsSub() {
+			modNames = append(modNames, m.Name)
+		}
+	}
 	pendingGood := permuted(ht, names)
+	// a quarter of the cases keep some good texts on the simulated disk only
+	// and also load by Read(path): a failed Read must not leave its directory
+	// on the search path
+	wRead := 0
+	if dt := t.Sub("disk"); len(names) >= 2 && dt.Chance(1, 4) {
+		k := dt.Range(1, len(names)-1)
+		c.OnDisk = append(c.OnDisk, pendingGood[len(pendingGood)-k:]...)
+		sort.Strings(c.OnDisk)
+		pendingGood = pendingGood[:len(pendingGood)-k]
+		wRead = 4
+	}
 	var loaded []string
 	n := ht.Range(3, 14)
 	for i := 0; i < n; i++ {
-		switch ht.Weighted(6, 1, 3, 4, 2, 2) {
+		switch ht.Weighted(6, 1, 3, 4, 2, 2, wRead) {
 		case 0:
 			if len(pendingGood) > 0 {
 				c.Ops = append(c.Ops, world.Op{Op: "parse", Name: pendingGood[0]})
@@ -206,7 +256,16 @@ func (c18Driver) Generate(t *tape.Tape, tier string) core.Case {
 			c.Ops = append(c.Ops, world.Op{Op: "query", Arg: "/x:nosuch"})
 		case 5:
 			// GetModule processes the set itself
-			c.Ops = append(c.Ops, world.Op{Op: "getmodule", Name: moduleOfFile(names[ht.Intn(len(names))])})
+			c.Ops = append(c.Ops, world.Op{Op: "getmodule", Name: modNames[ht.Intn(len(modNames))]})
+		case 6:
+			switch {
+			case len(c.Bad) > 0 && ht.Chance(1, 2):
+				c.Ops = append(c.Ops, world.Op{Op: "read", Name: []string{"lib1/", "lib2/"}[ht.Intn(2)] + c.Bad[ht.Intn(len(c.Bad))].Name})
+			case len(pendingGood) > 0:
+				c.Ops = append(c.Ops, world.Op{Op: "read", Name: "lib2/" + pendingGood[0]})
+				loaded = append(loaded, pendingGood[0])
+				pendingGood = pendingGood[1:]
+			}
 		}
 	}
 	switch ht.Weighted(2, 2, 1) {
@@ -215,7 +274,7 @@ func (c18Driver) Generate(t *tape.Tape, tier string) core.Case {
 	case 1:
 		c.Ops = append(c.Ops, world.Op{Op: "process"}, world.Op{Op: "process"})
 	case 2:
-		c.Ops = append(c.Ops, world.Op{Op: "getmodule", Name: moduleOfFile(names[ht.Intn(len(names))])})
+		c.Ops = append(c.Ops, world.Op{Op: "getmodule", Name: modNames[ht.Intn(len(modNames))]})
 	}
 	c.Sched = maporder.RandomStable(t.Sub("sched"))
 	if t.Chance(1, 3) {
@@ -259,11 +318,12 @@ func (c18Driver) Run(cc core.Case) core.Outcome {
 	for _, b := range c.Bad {
 		kind[b.Name] = b.Kind
 	}
-	spec := &world.Spec{Texts: texts, Sched: c.Sched, Options: c.Options, Ops: c.Ops}
+	disk := c.disk(texts)
+	spec := &world.Spec{Texts: texts, Disk: disk, Sched: c.Sched, Options: c.Options, Ops: c.Ops}
 	res := world.Exec(spec)
 	o.Ticks += res.Ticks
 	addRecorder(&o, res.Rec)
-	var accepted []string
+	var accepted []world.Op
 	failedLoads, processes, queries := 0, 0, 0
 	var state strings.Builder
 	for i, r := range res.Ops {
@@ -274,14 +334,14 @@ func (c18Driver) Run(cc core.Case) core.Outcome {
 			if r.Op.Op == "getmodule" {
 				final = r.Op
 			}
-			batch := runBatchOp(texts, accepted, c.Sched, c.Options, final)
+			batch := runBatchOps(texts, disk, accepted, c.Sched, c.Options, final)
 			o.Ticks += batch.Res.Ticks
 			if (r.Op.Op == "process" || r.Op.Op == "getmodule") && !batch.Crashed {
 				what := r.Panic
 				if r.Overrun != "" {
 					what = "simulated " + r.Overrun + " bound exceeded"
 				}
-				o.Fail("history-crash", "op %d (%s) crashed in %s: %s\nafter the history %s\nwhile a fresh Modules loading the accepted texts %v processes without crashing", i, r.Op.Op, r.Frame, what, opsString(c.Ops[:i+1]), accepted)
+				o.Fail("history-crash", "op %d (%s) crashed in %s: %s\nafter the history %s\nwhile a fresh Modules loading the accepted texts %s processes without crashing", i, r.Op.Op, r.Frame, what, opsString(c.Ops[:i+1]), opsString(accepted))
 				o.Culprits = []string{"panic:" + r.Frame}
 				return o
 			}
@@ -291,15 +351,23 @@ func (c18Driver) Run(cc core.Case) core.Outcome {
 			return o
 		}
 		switch r.Op.Op {
-		case "parse":
+		case "parse", "read":
+			tname := r.Op.Name
+			if r.Op.Op == "read" {
+				tname = strings.TrimPrefix(strings.TrimPrefix(tname, "lib1/"), "lib2/")
+				o.Count("probe.load_by_read", 1)
+			}
 			if r.Err == "" {
-				accepted = append(accepted, r.Op.Name)
-				if k := kind[r.Op.Name]; k != "" {
+				accepted = append(accepted, r.Op)
+				if k := kind[tname]; k != "" {
 					o.Count("probe.damaged_text_still_accepted", 1)
 				}
 			} else {
 				failedLoads++
-				switch k := kind[r.Op.Name]; k {
+				if r.Op.Op == "read" {
+					o.Count("probe.failed_read", 1)
+				}
+				switch k := kind[tname]; k {
 				case "short", "torn", "flip", "garbage", "dupblock":
 					o.Count("fault.text-"+k, 1)
 				case "raw":
@@ -313,6 +381,10 @@ func (c18Driver) Run(cc core.Case) core.Outcome {
 		case "query":
 			queries++
 		case "process", "getmodule":
+			if r.Op.Op == "getmodule" {
+				// compared below like a Process; if it read the module from the
+				// search path, that is a load the fresh set repeats from now on
+			}
 			if failedLoads > 0 || processes > 0 || queries > 0 {
 				o.Nontrivial = true
 			}
@@ -324,7 +396,7 @@ func (c18Driver) Run(cc core.Case) core.Outcome {
 			}
 			processes++
 			hist := outcomeOf(&world.Result{Ops: []world.OpResult{r}})
-			batch := runBatchOp(texts, accepted, c.Sched, c.Options, r.Op)
+			batch := runBatchOps(texts, disk, accepted, c.Sched, c.Options, r.Op)
 			o.Ticks += batch.Res.Ticks
 			if r.Op.Op == "getmodule" {
 				o.Count("probe.getmodule_compared", 1)
@@ -342,8 +414,14 @@ func (c18Driver) Run(cc core.Case) core.Outcome {
 				case !hist.Clean && !bproc.Clean:
 					class = "history-changes-errors"
 				}
-				o.Fail(class, "%s at op %d of the history %s\ndiffers from a fresh Modules loading the accepted texts %v and processing once:\n%s", opName(r.Op), i, opsString(c.Ops[:i+1]), accepted, strings.Replace(strings.Replace(firstDiff(bproc.Text, hist.Text), "canonical:", "batch    :", 1), "this run :", "history  :", 1))
+				o.Fail(class, "%s at op %d of the history %s\ndiffers from a fresh Modules loading the accepted texts %s and processing once:\n%s", opName(r.Op), i, opsString(c.Ops[:i+1]), opsString(accepted), strings.Replace(strings.Replace(firstDiff(bproc.Text, hist.Text), "canonical:", "batch    :", 1), "this run :", "history  :", 1))
 				return o
+			}
+			// Whatever this call read from the search path on demand is a load
+			// that the fresh set repeats (explicitly) from now on.
+			for _, src := range r.OnDemand {
+				accepted = append(accepted, world.Op{Op: "read", Name: src})
+				o.Count("probe.loaded_on_demand", 1)
 			}
 		}
 	}
@@ -371,6 +449,8 @@ func opsString(ops []world.Op) string {
 			parts = append(parts, "parse("+op.Name+")")
 		case "getmodule":
 			parts = append(parts, "getmodule("+op.Name+")")
+		case "read":
+			parts = append(parts, "read("+op.Name+")")
 		default:
 			parts = append(parts, op.Op)
 		}
@@ -420,14 +500,22 @@ func (c18Driver) Shrink(cc core.Case) []core.Case {
 			}
 			n.Bad = nb
 			for _, op := range n.Ops {
-				if op.Op == "parse" {
-					if _, ok := have[op.Name]; !ok && !bad[op.Name] {
+				if op.Op == "parse" || op.Op == "read" {
+					tn := strings.TrimPrefix(strings.TrimPrefix(op.Name, "lib1/"), "lib2/")
+					if _, ok := have[tn]; !ok && !bad[tn] {
 						continue
 					}
 				}
 				ops = append(ops, op)
 			}
 			n.Ops = ops
+			var od []string
+			for _, x := range n.OnDisk {
+				if _, ok := have[x]; ok {
+					od = append(od, x)
+				}
+			}
+			n.OnDisk = od
 			out = append(out, n)
 		}
 	}
@@ -435,6 +523,11 @@ func (c18Driver) Shrink(cc core.Case) []core.Case {
 		if c.Bad[i].Kind != "raw" && c.Bad[i].Kind != "toplevel" {
 			continue
 		}
+	}
+	for i := range c.OnDisk {
+		n := clone()
+		n.OnDisk = append(n.OnDisk[:i], n.OnDisk[i+1:]...)
+		out = append(out, n)
 	}
 	for _, s := range schedShrinks(c.Sched) {
 		n := clone()
